@@ -264,6 +264,8 @@ func genC02(g *Rng, tier string, emit func(Op)) {
 		}
 		// empty list / length mismatch
 		emit(listOp(nil, []any{}, s.ctx, s.nonce, s.issig, nil, "empty", "reject"))
+		emit(listOp(nil, []any{}, s.ctx, s.nonce, s.issig, nil, "empty-not-nil", "reject").with("emptylist", true).with("fkey", "C02/empty-list"))
+		emit(listOp(nil, []any{}, s.ctx, s.nonce, s.issig, []string{}, "empty-not-nil-labelled", "reject").with("emptylist", true).with("fkey", "C02/empty-list"))
 		emit(listOp(s.keys, s.trees[:n-1], s.ctx, s.nonce, s.issig, nil, "fewer-proofs-than-keys", "reject"))
 		emit(listOp(s.keys[:n-1], s.trees, s.ctx, s.nonce, s.issig, nil, "fewer-keys-than-proofs", "reject|decode-error"))
 		// key substitution, also on objects that have been verified under their own keys before
